@@ -25,8 +25,9 @@ def is_value(o):
 
 
 class SeqSuite(Suite):
-    """sequential histories over push/pop/cons/unblock_pop/size/empty/destroy on queue<int> and queue<void>,
-    pops issued through plain futures and through coroutine consumers"""
+    """sequential histories over push/pop/cons/cbcons/unblock_pop/size/empty/destroy on queue<int> and queue<void>;
+    pops issued through plain futures, through coroutine consumers (`cons n`: co_await pop() in a loop) and through
+    callback consumers (`cbcons n`: the callback runs inside the resolving call and re-enters the queue)"""
     name = "q-sequential"
     harness = HARNESS
     driver = "drv_c09"
@@ -55,7 +56,8 @@ class SeqSuite(Suite):
         cases = []
         # 1. every short history (systematic part)
         if tier == "quick":
-            alpha_q, len_q, alpha_v, len_v = ["push", "pop", "cons 2", "upop 3"], 5, ["push", "pop", "cons 2", "upop 3"], 4
+            alpha_q, len_q = ["push", "pop", "cons 2", "upop 3"], 5
+            alpha_v, len_v = ["push", "pop", "cons 2", "upop 3"], 4
         else:
             alpha_q, len_q = ["push", "pop", "cons 2", "upop 3", "size"], 7
             alpha_v, len_v = ["push", "pop", "cons 2", "upop 3", "size"], 6
@@ -69,6 +71,9 @@ class SeqSuite(Suite):
             kind = "q" if rng.random() < 0.7 else "vq"
             nops = rng.randint(3, 14) if rng.random() < 0.3 else rng.randint(10, 50)
             bias = rng.choice([0.3, 0.5, 0.7])
+            # callback consumers only in one case out of 16: if the queue ever resolved a promise under its lock every
+            # such case would deadlock (and cost the harness's alarm time)
+            cons_kinds = ["cons", "cbcons"] if i % 16 == 0 else ["cons"]
             ops = []
             for k in range(nops):
                 if rng.random() < 0.15:
@@ -77,8 +82,8 @@ class SeqSuite(Suite):
                 if r < 0.74:
                     if rng.random() < bias:
                         ops.append("push")
-                    elif rng.random() < 0.3:
-                        ops.append("cons %d" % rng.randint(1, 4))
+                    elif rng.random() < 0.35:
+                        ops.append("%s %d" % (rng.choice(cons_kinds), rng.randint(1, 4)))
                     else:
                         ops.append("pop")
                 elif r < 0.86:
@@ -203,9 +208,9 @@ class SeqSuite(Suite):
                     msgs.append("lost: pop#%d parked although %d items were queued" % (i, n_items))
                 if completions:
                     msgs.append("spurious: pop resolved other futures %s" % completions)
-            elif w[0] == "cons":
+            elif w[0] in ("cons", "cbcons"):
                 if any(pop_state.get(i) == "pending" for i, o in completions):
-                    msgs.append("spurious: cons resolved older futures %s" % completions)
+                    msgs.append("spurious: %s resolved older futures %s" % (w[0], completions))
             elif w[0] == "upop":
                 r = head[1]
                 if pend:
@@ -394,7 +399,7 @@ class SchedSuite(Suite):
         given = 0                 # items assigned to pops so far (in lock order)
         pop_state = {}            # pop id -> 'pending' | outcome
         taken = set()             # pops whose promise was moved out of the queue (resolution in flight or done)
-        inflight = []             # [(pop id, expected outcome, 'push'|'upop')] in the order the calls parked
+        inflight = []             # [(pop id, expected outcome, 'push'|'upop', already resolved)] in the order the calls parked
         got = {}
         finished = False
 
@@ -413,7 +418,7 @@ class SchedSuite(Suite):
             hd = " ".join(head)
             if w[0] in ("destroy", "end"):
                 finished = True
-                expect = sorted([(i, o) for i, o, _ in inflight] + [(i, "canceled") for i in wait])
+                expect = sorted([(i, o) for i, o, _, early in inflight if not early] + [(i, "canceled") for i in wait])
                 inflight = []
                 if sorted(completions) != expect:
                     msgs.append("destroy: expected %s, got %s" % (expect, completions))
@@ -424,7 +429,9 @@ class SchedSuite(Suite):
                         msgs.append("lost: push with pops %s waiting did not take one (%s)" % (wait, hd))
                     else:
                         val = "ok" if void else "v:%d" % pushed[given]
-                        inflight.append((wait[0], val, "push"))
+                        early = completions == [(wait[0], val)]     # resolved before the lock was dropped: same outcome
+                        inflight.append((wait[0], val, "push", early))
+                        expect = [(wait[0], val)] if early else []
                         taken.add(wait[0])
                         given += 1
                 elif hd != "push woke=0":
@@ -455,15 +462,17 @@ class SchedSuite(Suite):
                     if hd != "upop paused":
                         msgs.append("unblock_pop: with pops %s waiting it must take the oldest (%s)" % (wait, hd))
                     else:
-                        inflight.append((wait[0], "exc:%s" % w[1], "upop"))
+                        early = completions == [(wait[0], "exc:%s" % w[1])]
+                        inflight.append((wait[0], "exc:%s" % w[1], "upop", early))
+                        expect = [(wait[0], "exc:%s" % w[1])] if early else []
                         taken.add(wait[0])
                 elif hd != "upop 0":
                     msgs.append("unblock_pop: reported %s with nobody waiting" % hd)
             elif w[0] == "deliver":
                 k = int(w[1])
                 if k < len(inflight):
-                    i, o, who = inflight.pop(k)
-                    expect = [(i, o)]
+                    i, o, who, early = inflight.pop(k)
+                    expect = [] if early else [(i, o)]
                     want = "deliver push woke=1" if who == "push" else "deliver upop 1"
                     if hd != want:
                         msgs.append("deliver: expected `%s`, got `%s`" % (want, hd))
@@ -478,7 +487,7 @@ class SchedSuite(Suite):
             elif w[0] == "empty":
                 if (head[1] == "1") != (n_items == 0):
                     msgs.append("size: empty() = %s but %d items are queued" % (head[1], n_items))
-            if w[0] not in ("destroy", "end", "deliver") and completions:
+            if w[0] not in ("destroy", "end", "deliver") and completions != expect:
                 msgs.append("spurious: `%s` resolved %s" % (op, completions))
             for i, o in completions:
                 if pop_state.get(i) != "pending":
